@@ -44,6 +44,10 @@ structure Origin where
   scheme : Nat          -- 0 = http, 1 = https
   host : Str
   port : Nat
+  /-- 1 when the URL spells out its default port (`http://a.test:80/`): `yarl`'s `origin()` of such a URL compares
+  *unequal* to the origin of `http://a.test/`, so the loop's `url.origin() != redirect_origin` treats that hop as
+  cross-origin and strips (the safe direction).  Relative targets inherit the spelling. -/
+  spelled : Nat := 0
 deriving DecidableEq, Repr
 
 /-- a `yarl.URL` as far as the loop looks at it -/
